@@ -89,6 +89,9 @@ type run struct {
 	rep    *hlib.Report
 	failed map[string]bool
 	stall  bool
+	// accounts whose state nonce was lowered by a head event and whose pending list has
+	// had a gap ever since (known finding: refused re-injection leaves a gap)
+	tainted map[int]bool
 }
 
 func startRun(w *world, c *Case, rep *hlib.Report) *run {
@@ -98,7 +101,7 @@ func startRun(w *world, c *Case, rep *hlib.Report) *run {
 		u.id(s)
 	}
 	r := newRig(w, theLogger, c.Cfg, c.Blocks[0].State.chain())
-	x := &run{c: c, r: r, u: u, rep: rep, failed: map[string]bool{}}
+	x := &run{c: c, r: r, u: u, rep: rep, failed: map[string]bool{}, tainted: map[int]bool{}}
 	x.blocks = []*types.WorkObject{r.chain.head()}
 	if err := r.barrier(barrierTimeout); err != nil {
 		x.reportStall("create")
@@ -114,6 +117,8 @@ func (x *run) finish() {
 }
 
 func (x *run) fail(sig, what string) {
+	failMu.Lock()
+	defer failMu.Unlock()
 	if x.failed[sig] {
 		return
 	}
@@ -133,8 +138,21 @@ func (x *run) reportStall(where string) {
 }
 
 func (x *run) monitor(s *Snap, afterRun bool, where string) {
+	gapped := map[int]bool{}
 	for _, v := range x.r.checkSnapshot(s, afterRun) {
-		x.fail(v.sig, fmt.Sprintf("after %s: %s", where, v.what))
+		sig := v.sig
+		if sig == "pending:gap" {
+			gapped[v.acct] = true
+			if x.tainted[v.acct] || x.regressPossible(v.acct) {
+				sig = "pending:gap:after-nonce-regress"
+			}
+		}
+		x.fail(sig, fmt.Sprintf("after %s: %s", where, v.what))
+	}
+	for a := range x.tainted {
+		if !gapped[a] {
+			delete(x.tainted, a)
+		}
 	}
 	if n := panicCount.Load(); n > x.rPanics() {
 		x.fail("panic:recovered-in-pool-goroutine", fmt.Sprintf("after %s: the pool logged a recovered panic: %s", where, lastPanic.Load()))
@@ -143,6 +161,26 @@ func (x *run) monitor(s *Snap, afterRun bool, where string) {
 }
 
 func (x *run) rPanics() int64 { return panicSeen.Load() }
+
+// regressPossible: in a concurrent history the announcement order is not known; an account
+// can see its state nonce lowered if two announced heads disagree on it.
+func (x *run) regressPossible(a int) bool {
+	if x.c.Kind != "conc" {
+		return false
+	}
+	lo, hi := ^uint64(0), uint64(0)
+	for _, b := range x.c.Blocks {
+		if a < len(b.State.Nonce) {
+			if n := b.State.Nonce[a]; n < lo {
+				lo = n
+			}
+			if n := b.State.Nonce[a]; n > hi {
+				hi = n
+			}
+		}
+	}
+	return hi > lo
+}
 
 // guard runs f and turns a panic of the code under test into a monitor failure.
 func (x *run) guard(where string, f func()) {
@@ -225,6 +263,13 @@ func (x *run) exec(op *OpJS) {
 	s := x.r.snapshot(x.u)
 	op.Snap = s
 	x.last = s
+	if op.K == "head" && prev != nil {
+		for a := range s.Accts {
+			if s.Accts[a].SNonce < prev.Accts[a].SNonce {
+				x.tainted[a] = true
+			}
+		}
+	}
 	x.monitor(s, true, op.K)
 	switch op.K {
 	case "add":
